@@ -33,7 +33,9 @@ class AgpModel:
         d = np.array(self.dl[1:], dtype=float)
         z = np.array([0.0 if v is None else v for v in self.zs], dtype=float)
         zl, zr = z[:-1], z[1:]
-        R = d + (zr - zl) ** 2 / (rm * rm * d) - 2.0 * (zr + zl - 2.0 * self.zbest) / rm
+        # (quotients first: objective values of magnitude 1e153 and more must not overflow in the model either)
+        t = (zr - zl) / rm
+        R = d + t * t / d - 2.0 * ((zr - self.zbest) / rm + (zl - self.zbest) / rm)
         # boundary intervals: the outer ends are never evaluated
         R[0] = 2.0 * d[0] - 4.0 * (z[1] - self.zbest) / rm
         R[m - 2] = 2.0 * d[m - 2] - 4.0 * (z[m - 2] - self.zbest) / rm
